@@ -15,34 +15,48 @@ import (
 // Both accept paths (per-loop listener: accept; main reactor: accept0 + the registration task).
 // ---------------------------------------------------------------------------------------
 
-//verif: mode=int unwind=6
+//verif: mode=int unwind=8
 func VH_C17_AcceptedAddresses() {
 	w := vNewWorld(vNondetBool("et"), 1<<20)
-	ln := &listener{fd: vListenFD, network: "tcp", addr: vLocalAddr}
+	fam := vPick("family", 3) // IPv4, IPv6, Unix-domain
+	network := "tcp"
+	var lnAddr net.Addr = vLocalAddr
+	if fam == 2 {
+		network = "unix"
+		lnAddr = &net.UnixAddr{Name: "/run/gnet.sock", Net: "unix"}
+	}
+	ln := &listener{fd: vListenFD, network: network, addr: lnAddr}
 	w.el.listeners[vListenFD] = ln
 	w.eng.listeners[vListenFD] = ln
-	v6 := vNondetBool("ipv6")
 	port := vNondetInt("port")
 	vAssume(0 <= port && port < 65536)
 	ipb := vNondetBytes("ip", 16)
+	uname := string(vNondetBytes("unix.name", 6)) // e.g. a client bound to "/tmp/c" or to an abstract "@name"
 	n := 4
 	var sa unix.Sockaddr
-	if v6 {
+	switch fam {
+	case 0:
+		s4 := &unix.SockaddrInet4{Port: port}
+		copy(s4.Addr[:], ipb[:4])
+		sa = s4
+	case 1:
 		n = 16
 		s6 := &unix.SockaddrInet6{Port: port}
 		copy(s6.Addr[:], ipb)
 		sa = s6
-	} else {
-		s4 := &unix.SockaddrInet4{Port: port}
-		copy(s4.Addr[:], ipb[:4])
-		sa = s4
+	default:
+		sa = &unix.SockaddrUnix{Name: uname}
 	}
 	vk.S[vListenFD] = vk.Sock{Owner: vk.Framework, Listen: true, Registered: true, AcceptReady: true, AcceptFD: vNewFD, AcceptFrom: sa}
 	k := vNondetInt("k")
 	vAssume(0 <= k && k < n)
 	okAddr := func(c *conn) bool {
+		if fam == 2 {
+			ua, ok := c.RemoteAddr().(*net.UnixAddr)
+			return ok && ua.Net == "unix" && ua.Name == uname && c.LocalAddr() == lnAddr
+		}
 		ra, ok := c.RemoteAddr().(*net.TCPAddr)
-		return ok && ra.Port == port && len(ra.IP) == n && ra.IP[k] == ipb[k] && ra.Zone == "" && c.LocalAddr() == vLocalAddr
+		return ok && ra.Port == port && len(ra.IP) == n && ra.IP[k] == ipb[k] && ra.Zone == "" && c.LocalAddr() == lnAddr
 	}
 	inOpen := false
 	w.h.onOpen = func(c *conn) ([]byte, Action) {
